@@ -186,7 +186,8 @@ def analyze(repo):
     with cf.ProcessPoolExecutor(max_workers=16, mp_context=mp.get_context("fork")) as pool:
         for lvl in levels:
             todo = [q for q in lvl if not q.startswith("compare@")]
-            for q, r, err in pool.map(_analyze_one, [(q, summ) for q in todo]):
+            snap = dict(summ)          # the feeder thread pickles lazily: never hand it the dict being updated
+            for q, r, err in pool.map(_analyze_one, [(q, snap) for q in todo]):
                 if err:
                     raise AnalysisError(f"range analysis crashed in {q}: {err}")
                 summ[q] = r
